@@ -8,6 +8,7 @@ Bounded (evaluated exhaustively on the real `dd` managers, both back ends):
 `enumeration._bitfields_to_int_iter`, `_enumerate_int`, `_take_product_iter`.
 """
 import itertools
+import omega.logic.bitvector as _bv
 import random
 
 import z3
@@ -225,6 +226,25 @@ def h_support(ctx):
                 r = ctx.call(sup, c, u, label='support')
                 w.oblige(f'support.post: exactly the variables the predicate depends on ({sorted(sub)})',
                          z3.BoolVal(r == set(sub)))
+    # an identifier declared after `support` has been used
+    how = ctx.p.get('late', 'declare')
+    late = dict(late_k=(0, 5), late_b='bool')
+    if hasattr(c, 'declare_variables') and how == 'declare':
+        c.declare_variables(**late)
+    elif hasattr(c, 'declare_constants') and how == 'constants':
+        c.declare_constants(**late)
+    elif hasattr(c, 'declare') and how == 'declare':
+        c.declare(**late)
+    else:
+        c.add_vars(_bv.make_symbol_table(late))
+    for sub in (['late_k'], ['late_b'], ['late_k', 'late_b'] + names[:1]):
+        for which in (0, -1):
+            n += 1
+            bits = [w.bits_of([v])[which] for v in sub]
+            u = w.pred(f'S{n}', bits)
+            r = ctx.call(sup, c, u, label='support')
+            w.oblige(f'support.post: exactly the variables the predicate depends on ({sorted(sub)}), declared after earlier calls of support ({how})',
+                     z3.BoolVal(r == set(sub)))
     w.canary('support canary', z3.BoolVal(n == 0))
 
 
